@@ -52,11 +52,11 @@ META = {
 
 INVARIANTS = ["IdsUniqueAndDense", "OneValuePerId", "BatchOffsets", "NotEmpty"]
 WITNESSES = ["Witness_TwoIdClause", "Witness_TokenFilter", "Witness_BatchOfThree", "Witness_TwoStatements", "Witness_MayRefuse",
-             "Witness_SharedConditionsFirstInBatch"]
+             "Witness_SharedConditionsFirstInBatch", "Witness_TokenThenQuotedName"]
 
 
 def constants(quick):
-    return {"NF": 10 if quick else 20, "MaxFilters": 3, "NProfLong": 2 if quick else 3, "MaxAssign": 2 if quick else 3,
+    return {"NF": 10 if quick else 22, "MaxFilters": 3, "NProfLong": 2 if quick else 3, "MaxAssign": 2 if quick else 3,
             "MaxMuts": 2 if quick else 3, "MaxCreate": 2 if quick else 3, "MaxBatch": 3, "NBM": 10 if quick else 16}
 
 
@@ -74,6 +74,11 @@ def witness_classes(case, out):
         got.add("Witness_TwoStatements")
     if k == "select" and out["mayrefuse"]:
         got.add("Witness_MayRefuse")
+    if k == "select" and case["single"]:
+        fs = case["filters"]
+        if any(fs[i]["shape"] == "token" and fs[j]["shape"] == "rel" and fs[j]["col"] in ("Seq", "order")
+               for i in range(len(fs)) for j in range(i + 1, len(fs))):
+            got.add("Witness_TokenThenQuotedName")
     if k == "batch" and case["members"][0]["kind"] in ("instsave", "qsupdate"):
         st = out["sent"][0]["stmts"]
         if len(st) >= 3 and st[0]["kind"] == "update" and st[1]["kind"] == "delete" and len(st[0]["iff"]) >= 2 and \
@@ -173,7 +178,7 @@ def _brief(case):
     """A short, JSON-able description of a case."""
     k = case["kind"]
     if k == "select":
-        return {"select": [f["kw"] for f in case["filters"]], "opt": dict(case["opt"])}
+        return {"select": [f["kw"] for f in case["filters"]], "one_filter_call": case.get("single", False), "opt": dict(case["opt"])}
     if k == "qsupdate":
         return {"qsupdate": [a["kw"] + ("=None" if a["null"] else "") for a in case["assigns"]], "prof": _prof(case["prof"])}
     if k == "qsdelete":
